@@ -41,4 +41,20 @@ mutual
     | .elem e rest => .elem e.shape rest.shape
 end
 
+/-- no NUL byte (a NUL ends the text handed to `Xml::parse`) -/
+def bytesNulFree (s : Bytes) : Bool := s.all (· != 0)
+
+def attrsNulFree : List (Bytes × Bytes) → Bool
+  | [] => true
+  | (k, v) :: r => bytesNulFree k && bytesNulFree v && attrsNulFree r
+
+mutual
+  def Elem.nulFree : Elem → Bool
+    | .mk name _ _ attrs content => bytesNulFree name && attrsNulFree attrs && content.nulFree
+  def Content.nulFree : Content → Bool
+    | .nil => true
+    | .text s rest => bytesNulFree s && rest.nulFree
+    | .elem e rest => e.nulFree && rest.nulFree
+end
+
 end Nstd.Xml
